@@ -330,7 +330,7 @@ func ruleC10R2(r *Run) {
 		}
 		r.Check("(*T).cleanup#clear."+f, v.cancel.Instr.Pos(), !byp, "t."+f+" is cleared before the first callback", "t."+f+" is not set to nil before the first cleanup callback: a later Context() call returns the cancelled/stale context or the next invocation inherits it")
 	}
-	byp := reachable(first, v.callback.Instr, func(in ssa.Instruction) bool { return in == v.cancel.Instr.(ssa.Instruction) })
+	byp := first != v.cancel.Instr.(ssa.Instruction) && reachable(first, v.callback.Instr, func(in ssa.Instruction) bool { return in == v.cancel.Instr.(ssa.Instruction) })
 	r.Check("(*T).cleanup#cancel.called", v.cancel.Instr.Pos(), !byp, "cancelCtx() is called on the non-nil edge before the callbacks", "the non-nil edge reaches the callbacks without calling cancelCtx()")
 	r.Check("(*T).cleanup#cancel.locked", v.cancel.Instr.Pos(), v.ls[v.cancel.Instr.(ssa.Instruction)]["&$t.mu"] == 'W', "cancel and clear happen under the write lock", "cancelCtx is called/cleared without holding t.mu for writing")
 	// cleaning flag
@@ -494,15 +494,18 @@ func ruleC10R3(r *Run) {
 		r.Check("(*T).cleanup#exit-only-when-empty", ph.Pos(), okNil && holds(p.facts(v.callback.Instr), p.expr(ph), "!=", "nil"), "the loop ends only when the stack is empty; otherwise the popped callback is called", "the callback loop can end while callbacks remain, or a nil callback can be called")
 	}
 	// every return of cleanup (not only the loop exit) is reached only with an empty stack
+	if direct {
+		phKey = p.expr(elem) // (… or, as the nil-sentinel form always did, after popping a registered nil callback)
+	}
 	for _, ret := range returnsOf(v.fn) {
 		sets := p.pathConds(v.fn, ret.Block(), func(rl rel) bool {
-			return (rl.X == phKey && rl.Y == "nil") || rl.X == "builtin:len($t.cleanups)"
+			return (rl.X == phKey && rl.Y == "nil") || strings.Contains(rl.X, "builtin:len($t.cleanups)")
 		})
 		okAll := len(sets) > 0
 		for _, set := range sets {
 			ok := false
 			for _, lit := range set {
-				if lit == phKey+" == nil" || lit == "builtin:len($t.cleanups) <= 0" || lit == "builtin:len($t.cleanups) == 0" {
+				if lit == phKey+" == nil" || cleanupsEmptyLit(lit) {
 					ok = true
 				}
 			}
